@@ -2171,15 +2171,35 @@ InlineMeta = Callable | bool | None
 
 
 @functools.singledispatch
-def __unquote_args(f: LispForm, _: frozenset[sym.Symbol]):
+def __unquote_args(
+    f: LispForm, _: frozenset[sym.Symbol], __: Mapping[int, sym.Symbol]
+):
     return f
 
 
 @__unquote_args.register(sym.Symbol)
-def __unquote_args_sym(f: sym.Symbol, args: frozenset[sym.Symbol]):
+def __unquote_args_sym(
+    f: sym.Symbol, args: frozenset[sym.Symbol], var_refs: Mapping[int, sym.Symbol]
+):
     if f in args:
         return llist.l(reader._UNQUOTE, f)
-    return f
+    # Symbols which were resolved to a Var where the function was defined must denote
+    # that Var wherever the function is inlined, so they are fully qualified
+    return var_refs.get(id(f), f)
+
+
+def __inline_var_refs(node: Node, var_refs: MutableMapping[int, sym.Symbol]) -> None:
+    """Collect the symbols (by identity) beneath `node` which were resolved to a Var,
+    mapped to the fully qualified name of that Var."""
+    if (
+        isinstance(node, VarRef)
+        and isinstance(node.form, sym.Symbol)
+        and not node.return_var
+    ):
+        var_refs[id(node.form)] = sym.symbol(
+            node.var.name.name, ns=node.var.ns.name
+        )
+    node.visit(__inline_var_refs, var_refs)
 
 
 def _inline_fn_ast(
@@ -2216,10 +2236,13 @@ def _inline_fn_ast(
     logger.log(
         TRACE, f"Generating inline def for {name.name if name is not None else 'fn'}"
     )
+    var_refs: dict[int, sym.Symbol] = {}
+    __inline_var_refs(inline_arity.body.ret, var_refs)
     unquoted_form = reader._postwalk(
         lambda f: __unquote_args(
             f,
             frozenset(binding.form for binding in inline_arity.params),
+            var_refs,
         ),
         inline_arity.body.ret.form,
     )
